@@ -40,6 +40,12 @@ Proof. exact (C14_cancel c s e s'). Qed.
 Print Assumptions C14_stops_taking. Print Assumptions C14_result_structured. Print Assumptions C14_error_is_genuine. Print Assumptions C14_ok_means_exhausted. Print Assumptions C14_collect_ok_means_exhausted.
  Print Assumptions C14_cancelled_work_never_completes.
 
+(* "all futures still in flight are dropped unfinished": in a state that holds an error the acceptor takes no completion of a fallible future *)
+Theorem C14_in_flight_futures_never_complete_after_an_error c s stg j e s' : step c s (EDone stg j e) = Some s' ->
+  (c_term c = TTryForEach -> stg = 1 -> residual s = None) /\ (c_term c = TCollectRes -> stg = 0 -> residual s = None).
+Proof. exact (C14_no_completion_after_error c s stg j e s'). Qed.
+Print Assumptions C14_in_flight_futures_never_complete_after_an_error.
+
 Example C14_witness :
   let c := {| has_map := false; has_enum := false; enum_first := false; c_take := None; c_lim := None; c_term := TTryForEach |} in
   snd (run c (init c) [ESrc (Some 0); ECall 1 0 None; ESrc (Some 1); ECall 1 1 None; EDone 1 0 (Some 7); EDropWork 1 1; EResult (RErrV 7)] 0) = None /\
